@@ -1263,11 +1263,23 @@ fn gen_table_fault(rng: &mut Rng, info: &FontInfo, targets: &[String]) -> Option
     })
 }
 
+thread_local! {
+    static NO_WALK: std::cell::Cell<bool> = const { std::cell::Cell::new(false) };
+}
+
+/// See `sim gen --no-walk`.
+pub fn set_no_walk(on: bool) {
+    NO_WALK.with(|c| c.set(on));
+}
+
 /// The fields of `tag` that the parsers actually interpret: (offset, width) of every primitive
 /// read made while the typed walk (and, for cmap, the mapping ops) runs over the pristine table.
 /// Read-trace-guided fault placement: boundary values land exactly on consumed fields, including
 /// deep structures (anchors, device tables, DICT operands, tuple headers) no hand-written locator names.
 fn consumed_fields(info: &FontInfo, tag: &str) -> Rc<Vec<(usize, u8)>> {
+    if NO_WALK.with(|c| c.get()) {
+        return Rc::new(Vec::new());
+    }
     if let Some(v) = info.consumed.borrow().get(tag) {
         return v.clone();
     }
